@@ -86,9 +86,17 @@ try:
             channel,
             force_as,
             seed,
+            utt2idx=None,
         ):
             super(_FeatureProcessorDataset, self).__init__()
             self.utt_path = tuple(utt2path.items())
+            # utt2idx maps an utterance to its position in the full map file. The position
+            # (not the index into utt_path, which shrinks when utterances are skipped) seeds
+            # the utterance, so results don't depend on what else is being computed
+            if utt2idx is None:
+                self.seed_idx = tuple(range(len(self.utt_path)))
+            else:
+                self.seed_idx = tuple(utt2idx[utt_id] for (utt_id, _) in self.utt_path)
             self.preprocessors = preprocessors
             self.computer = computer
             self.postprocessors = postprocessors
@@ -101,7 +109,7 @@ try:
 
         @torch.no_grad()
         def __getitem__(self, idx):
-            torch.manual_seed(self.seed + idx)
+            torch.manual_seed(self.seed + self.seed_idx[idx])
             utt_id, path = self.utt_path[idx]
             try:
                 signal = read_signal(
@@ -542,6 +550,7 @@ def signals_to_torch_feat_dir(args=None):
             )
             return 1
         utt2path[utt_id] = " ".join(ls[1:])
+    utt2idx = dict((utt_id, idx) for (idx, utt_id) in enumerate(utt2path))
     if options.manifest is not None:
         options.manifest.seek(0)
         for line in options.manifest:
@@ -595,6 +604,7 @@ def signals_to_torch_feat_dir(args=None):
         options.channel,
         options.force_as,
         seed,
+        utt2idx,
     )
     loader = torch.utils.data.DataLoader(dataset, num_workers=options.num_workers)
     if not os.path.isdir(options.dir):
